@@ -1588,12 +1588,16 @@ fn interpolate_string(
         let ast =
             match parser.parse(&mut lexer) {
                 Ok(v) => v,
-                Err(e) => return new_loc_err(
-                    Error::InterpolateStringParseFailed{
-                        source_str: format!("{e:?}"),
-                    },
-                    slot_col,
-                ),
+                Err(e) => {
+                    let ((e_line, e_col), msg) = crate::render_parse_error(e);
+
+                    return new_loc_err(
+                        Error::InterpolateStringParseFailed{
+                            source_str: format!("{e_line}:{e_col}: {msg}"),
+                        },
+                        slot_col,
+                    );
+                },
             };
 
         // We catch the evaluation error manually so that we can modify the
